@@ -14,20 +14,22 @@ ENCODED = [
     "mchap.calling.exact.posterior_mode", "mchap.calling.exact._genotype_likelihoods", "mchap.calling.exact.genotype_likelihoods",
     "mchap.calling.exact.genotype_posteriors", "mchap.calling.exact.posterior_allele_frequencies", "mchap.calling.exact.alternate_dosage_posteriors",
     "mchap.calling.prior.log_genotype_prior", "mchap.jitutils.increment_genotype", "mchap.jitutils.index_as_genotype_alleles",
-    "mchap.jitutils.genotype_alleles_as_index", "mchap.application.call_exact.program.call_sample_genotypes", "mchap.application.baseclass.program.require_AFP",
+    "mchap.jitutils.genotype_alleles_as_index", "mchap.application.call_exact.program.call_sample_genotypes", "mchap.application.baseclass.program.require_AFP", "mchap.application.baseclass.program.sumarise_vcf_record",
 ]
 STUBS = ["log_likelihood -> ln L(sorted alleles) (one positive real per unordered genotype; read model is C04)",
          "application level: stub locus/data objects; qual_of_prob, natural_log_to_log10, minimum_error_correction replaced by constants (not part of the property)",
          "add_log_prob / normalise_log_probs summaries (lemmas discharged in C17)"]
 ASSUMES = ["L(g) > 0; F symbolic in (0,1) or 0; frequencies symbolic > 0 (sum 1), flat, or with the last entry exactly 0",
            "float32 storage of GL modelled as exact reals (the property allows single-precision rounding)"]
-BOUNDS = {"quick": "ploidy x alleles: array path 2x2, 2x3, 3x2, 3x3, 4x2; streaming path 2x2, 2x3, 3x2 (all orderings of the joint probabilities via running-max forks); application level 2x2, 2x3 with 6 --report subsets",
+BOUNDS = {"quick": "ploidy x alleles: array path 2x2, 2x3, 3x2, 3x3, 4x2; streaming path 2x2, 2x3, 3x2 (all orderings of the joint probabilities via running-max forks); application level 2x2, 2x3 with 10 --report subsets (FORMAT GP/GL/AFP/ACP/AOP and INFO AFP/ACP/AOP/AOPSUM through sumarise_vcf_record, one sample)",
           "thorough": "streaming path adds 2x4, 4x2, 6x2; array path adds 3x3, 4x3, 3x4; application level adds 3x2, 4x2"}
 OUTSIDE = "more genotypes; float32 rounding of GL; exact ties decided arbitrarily (both paths use first-maximum)"
 TASKS_PER_CHILD = 2
 
 
-REPORT_SETS = [(), ("AFP",), ("GP",), ("GL",), ("GP", "AFP"), ("GL", "GP", "ACP", "AOP")]
+# "I:<id>" requests the INFO field of that name (locus-level summaries of the per-sample posterior quantities)
+REPORT_SETS = [(), ("AFP",), ("GP",), ("GL",), ("GP", "AFP"), ("GL", "GP", "ACP", "AOP"),
+               ("I:AOPSUM", "GP"), ("I:AFP", "GL"), ("I:ACP", "I:AOP"), ("I:ACP", "I:AOP", "I:AFP", "I:AOPSUM", "GP", "GL")]
 
 
 def configs(tier):
@@ -206,6 +208,9 @@ class _Locus:
         self.frequencies = freqs
         self.sequence = "A"
         self.alts = ["C", "G", "T"][: len(haps) - 1]
+        self.contig, self.start, self.stop, self.name = "c", 0, 1, "L"
+        self.variants = [None]
+        self.positions = [0]
 
     def encode_haplotypes(self):
         return self._h
@@ -232,17 +237,25 @@ def _run_app(c, col, ex):
 
     def run_once(ctx, Fv, farr, report):
         prog = ce.program.__new__(ce.program)
-        prog.info_fields = []
-        prog.format_fields = list(base_fmt) + [getattr(FORMAT, r) for r in report]
-        fields = [FORMAT.GT, FORMAT.GQ, FORMAT.GPM, FORMAT.SPM, FORMAT.SQ, FORMAT.MCI, FORMAT.ACP, FORMAT.AFP, FORMAT.AOP, FORMAT.GP, FORMAT.GL, FORMAT.MEC, FORMAT.MECP]
+        info_req = [r[2:] for r in report if r.startswith("I:")]
+        prog.info_fields = [getattr(INFO, r) for r in info_req]
+        prog.format_fields = list(base_fmt) + [getattr(FORMAT, r) for r in report if not r.startswith("I:")]
+        fields = [FORMAT.GT, FORMAT.GQ, FORMAT.GPM, FORMAT.SPM, FORMAT.SQ, FORMAT.MCI, FORMAT.ACP, FORMAT.AFP, FORMAT.AOP, FORMAT.GP, FORMAT.GL, FORMAT.MEC, FORMAT.MECP,
+                  FORMAT.DP, FORMAT.RCOUNT, FORMAT.SNVDP]
         data = bc.LocusAssemblyData(
             locus=_Locus(haps, farr), samples=["s"], sample_bams={"s": "x.bam"}, sample_ploidy={"s": P}, sample_inbreeding={"s": Fv},
             read_calls={"s": rnp.zeros((1, 1), dtype=int)}, read_dists={"s": None}, read_counts={"s": None},
-            infofields=[], formatfields=prog.format_fields,
-            columndata={COLUMN.REF: None, COLUMN.ALT: None, COLUMN.FILTER: []}, infodata={}, sampledata={f: {} for f in fields})
+            infofields=prog.info_fields, formatfields=prog.format_fields,
+            columndata={COLUMN.REF: "A", COLUMN.ALT: ["C", "G", "T"][: A - 1], COLUMN.FILTER: []}, infodata={}, sampledata={f: {} for f in fields})
         out = prog.call_sample_genotypes(data)
         sd = out.sampledata
-        return dict(GT=tuple(int(a) for a in sd[FORMAT.GT]["s"]), GPM=sd[FORMAT.GPM]["s"], SPM=sd[FORMAT.SPM]["s"],
+        info = None
+        if info_req:
+            for f in (FORMAT.DP, FORMAT.RCOUNT):
+                sd[f]["s"] = 0
+            out = prog.sumarise_vcf_record(out)
+            info = {r: out.infodata[getattr(INFO, r)] for r in info_req}
+        return dict(INFO=info, GT=tuple(int(a) for a in sd[FORMAT.GT]["s"]), GPM=sd[FORMAT.GPM]["s"], SPM=sd[FORMAT.SPM]["s"],
                     AFP=sd[FORMAT.AFP].get("s"), ACP=sd[FORMAT.ACP].get("s"), AOP=sd[FORMAT.AOP].get("s"), GP=sd[FORMAT.GP].get("s"), GL=sd[FORMAT.GL].get("s"))
 
     prof = E.Profile()
@@ -278,6 +291,20 @@ def _run_app(c, col, ex):
                     if res[k] is not None and ref[k] is not None:
                         cl += [E.real_term(x) == E.real_term(y) for x, y in zip(res[k], ref[k])]
                 col.check(ctx, z3.And(cl), site, "report-independence", shape=shape, witness=w, desc="GPM/SPM/AFP/ACP/AOP identical for --report %s vs %s" % (list(r), list(ref_r)))
+                if res["INFO"]:
+                    # one sample: the locus-level summaries are that sample's posterior functionals (whatever else is reported)
+                    afp_o, acp_o, aop_o = _functionals(c, order, J, tot)
+                    want = dict(AFP=afp_o, ACP=acp_o, AOP=aop_o, AOPSUM=aop_o)
+                    for name, val in res["INFO"].items():
+                        try:
+                            vals = list(val)
+                        except TypeError:
+                            vals = None
+                        if vals is None or len(vals) != c["A"]:
+                            col.fail(site, "info-posterior-length", shape=shape, witness=dict(w, field=name, value=repr(val)), desc="INFO %s is not one value per allele" % name)
+                            continue
+                        col.check(ctx, z3.And([E.real_term(x) == y for x, y in zip(vals, want[name])]), site, "info-posterior-vs-oracle", shape=shape, witness=dict(w, field=name),
+                                  desc="INFO %s (one sample) == that sample's posterior functional, for --report %s" % (name, list(r)))
                 if res["GP"] is not None:
                     if len(res["GP"]) != len(order):
                         col.fail(site, "gp-length", shape=shape, witness=w, desc="GP length != number of genotypes")
@@ -409,6 +436,14 @@ def replay(v):
         return bool(max(abs(gp[i] - Jn[g] / tot) for i, g in enumerate(order)) > tol), "FORMAT GP=%s oracle=%s (F=%r f=%s)" % (rnp.round(gp, 5).tolist(), [round(Jn[g] / tot, 5) for g in order], F, f)
     if kind == "gp-length":
         return len(res["GP"]) != len(order), "len(GP)=%d" % len(res["GP"])
+    if kind in ("info-posterior-vs-oracle", "info-posterior-length"):
+        name = w["field"]
+        val = rnp.atleast_1d(rnp.asarray(res["INFO"][name], dtype=float))
+        acp = [x * P for x in afp]
+        want = dict(AFP=afp, ACP=acp, AOP=aop, AOPSUM=aop)[name]
+        bad = len(val) != A or bool(rnp.abs(val - rnp.array(want)).max() > tol)
+        return bad, "real modules, --report %s: INFO %s = %s, the sample's posterior functional is %s (F=%r f=%s)" % (
+            list(REPORT_SETS[c.get("report", 1)]), name, rnp.round(val, 5).tolist(), [round(x, 5) for x in want], F, f)
     return False, "kind?"
 
 
@@ -433,25 +468,35 @@ def _real_app(c, m, F, farr, report):
         rex.log_likelihood = lambda reads, genotype, read_counts=None: math.log(float(m.get(lname([int(r[0]) for r in genotype]), 1.0)))
         rce.minimum_error_correction = lambda calls, hh: rnp.zeros(1)
         prog = rce.program.__new__(rce.program)
-        prog.info_fields = []
+        import mchap.io.vcf.infofields as INFO
+
+        info_req = [r[2:] for r in report if r.startswith("I:")]
+        prog.info_fields = [getattr(INFO, r) for r in info_req]
         base = [FORMAT.GT, FORMAT.GQ, FORMAT.GPM, FORMAT.SPM, FORMAT.SQ]
-        prog.format_fields = base + [getattr(FORMAT, r) for r in report]
-        fields = [FORMAT.GT, FORMAT.GQ, FORMAT.GPM, FORMAT.SPM, FORMAT.SQ, FORMAT.MCI, FORMAT.ACP, FORMAT.AFP, FORMAT.AOP, FORMAT.GP, FORMAT.GL, FORMAT.MEC, FORMAT.MECP]
+        prog.format_fields = base + [getattr(FORMAT, r) for r in report if not r.startswith("I:")]
+        fields = [FORMAT.GT, FORMAT.GQ, FORMAT.GPM, FORMAT.SPM, FORMAT.SQ, FORMAT.MCI, FORMAT.ACP, FORMAT.AFP, FORMAT.AOP, FORMAT.GP, FORMAT.GL, FORMAT.MEC, FORMAT.MECP,
+                  FORMAT.DP, FORMAT.RCOUNT, FORMAT.SNVDP]
         freqs = farr if farr is not None else rnp.full(A, 1.0 / A)
         data = rbc.LocusAssemblyData(
             locus=_Locus(haps, freqs), samples=["s"], sample_bams={"s": "x.bam"}, sample_ploidy={"s": P}, sample_inbreeding={"s": F},
             read_calls={"s": rnp.zeros((1, 1), dtype=int)}, read_dists={"s": None}, read_counts={"s": None},
-            infofields=[], formatfields=prog.format_fields,
-            columndata={COLUMN.REF: None, COLUMN.ALT: None, COLUMN.FILTER: []}, infodata={}, sampledata={f_: {} for f_ in fields})
+            infofields=prog.info_fields, formatfields=prog.format_fields,
+            columndata={COLUMN.REF: "A", COLUMN.ALT: ["C", "G", "T"][: A - 1], COLUMN.FILTER: []}, infodata={}, sampledata={f_: {} for f_ in fields})
+        info = None
         with warnings.catch_warnings():
             warnings.simplefilter("ignore")
             out = prog.call_sample_genotypes(data)
+            if info_req:
+                for f_ in (FORMAT.DP, FORMAT.RCOUNT):
+                    out.sampledata[f_]["s"] = 0
+                out = prog.sumarise_vcf_record(out)
+                info = {r: out.infodata[getattr(INFO, r)] for r in info_req}
     finally:
         for n in names:
             setattr(rex, n, saved[n])
         rex.log_likelihood, rce.minimum_error_correction = saved_llk, saved_mec
     sd = out.sampledata
-    return dict(GT=tuple(int(a) for a in sd[FORMAT.GT]["s"]), GPM=float(sd[FORMAT.GPM]["s"]), SPM=float(sd[FORMAT.SPM]["s"]),
+    return dict(INFO=info, GT=tuple(int(a) for a in sd[FORMAT.GT]["s"]), GPM=float(sd[FORMAT.GPM]["s"]), SPM=float(sd[FORMAT.SPM]["s"]),
                 AFP=sd[FORMAT.AFP].get("s"), ACP=sd[FORMAT.ACP].get("s"), AOP=sd[FORMAT.AOP].get("s"), GP=sd[FORMAT.GP].get("s"))
 
 
